@@ -137,6 +137,21 @@ let handle line =
        | None -> "NONE" | Some None -> "FAIL" | Some (Some _) -> "OK")
   | "LOADS" :: cwd :: text :: fs -> outcome_js prog_js (bb_loads (fs_of fs) (cps cwd) (cps text))
   | "LOAD" :: cwd :: path :: fs -> outcome_js prog_js (bb_load (fs_of fs) (cps cwd) (cps path))
+  | "INSTANTIATE" :: cwd :: text :: sg ->
+      (* sg: name, mantissa, exponent triples; integers in decimal with optional '-' *)
+      let z_of_string s =
+        let neg = String.length s > 0 && s.[0] = '-' in
+        let body = if neg then String.sub s 1 (String.length s - 1) else s in
+        (* decimal string -> Z by Horner with the model's own arithmetic *)
+        let ten = Zpos (XO (XI (XO XH))) in
+        let acc = ref Z0 in
+        String.iter (fun ch -> let d = Char.code ch - 48 in
+                      acc := Z.add (Z.mul !acc ten) (if d = 0 then Z0 else Zpos (pos_of_int d))) body;
+        if neg then Z.opp !acc else !acc in
+      let rec triples = function
+        | n :: m :: e :: rest -> (cps n, (z_of_string m, z_of_string e)) :: triples rest
+        | _ -> [] in
+      outcome_js prog_js (bb_instantiate [] (cps cwd) (cps text) (triples sg))
   | ["DIGRAPH"; ws] ->
       (* operations separated by ';', each a comma separated wire list *)
       let ops = if ws = "" then [] else List.map (fun o -> List.map nat_of_int (ints o)) (String.split_on_char ';' ws) in
